@@ -644,6 +644,11 @@ func (t *trans) call(x *cCall) (string, vtype) {
 		a, _ := arg(0)
 		return fmt.Sprintf("(is_elem %s)", a), boolT
 	case "addrof":
+		if id, isId := x.Args[0].(*cIdent); isId {
+			if v, ok := t.vars[id.Name+"$addr"]; ok {
+				return v.term, v.vt
+			}
+		}
 		if a, _, ok := t.place(x.Args[0]); ok {
 			return a, vtype{"Ref", nil}
 		}
@@ -696,12 +701,28 @@ func (c *smtctx) cardFactsAt(st *state, mt types.Type, m string) {
 	D := fmt.Sprintf("(select %s %s)", c.heapGet(st, md), m)
 	C := fmt.Sprintf("(select %s %s)", c.heapGet(st, mc), m)
 	key := "card|" + D + "|" + C
+	if c.cardPairs {
+		key = "cardpair|" + D + "|" + C
+	}
 	if c.unfolded[key] {
 		return
 	}
 	c.unfolded[key] = true
 	c.assume(fmt.Sprintf("(>= %s 0)", C))
 	c.assume(fmt.Sprintf("(forall ((ck!x %s)) (! (=> (select %s ck!x) (>= %s 1)) :pattern ((select %s ck!x))))", ks, D, C, D))
+	if c.cardPairs {
+		// inside a variant: cardinality is monotone under inclusion of finite sets (a fact of finite-set theory the
+		// solvers cannot derive; instantiated only between the map lengths a decreases clause mentions)
+		for _, o := range c.cardTerms[ks] {
+			c.assume(fmt.Sprintf("(=> (forall ((ck!y %s)) (=> (select %s ck!y) (select %s ck!y))) (<= %s %s))", ks, D, o[0], C, o[1]))
+			c.assume(fmt.Sprintf("(=> (forall ((ck!y %s)) (=> (select %s ck!y) (select %s ck!y))) (<= %s %s))", ks, o[0], D, o[1], C))
+		}
+		if c.cardTerms == nil {
+			c.cardTerms = map[string][][2]string{}
+		}
+		c.cardTerms[ks] = append(c.cardTerms[ks], [2]string{D, C})
+		c.usedAxioms["finite-set fact used in a variant: A subset-of B implies |A| <= |B| (for the domains of the maps whose lengths the decreases clause mentions)"] = true
+	}
 	// non-empty domain has a witness
 	wit := c.freshConst("cardwit", ks)
 	c.assume(fmt.Sprintf("(=> (>= %s 1) (select %s %s))", C, D, wit))
